@@ -237,6 +237,7 @@ ALPHA_C19 = [
     "abcdefghijklmnopqrstuvwxyz0123456789",
     ",", " ", "[]", "éü€日𝔘", ":*?@.-_/;#{}", '"', "\\",
     "\u0301\u200b\u200d\u202e\ufeff\u00a0\u212b\ufb01\U0001f600\u0130\u00df\u0131",
+    "\t\x0b\x0c\x1c\x7f\u0085\u2028\u2029\n\r",
 ]
 ALPHA_BENIGN = ["abcdefghijklmnopqrstuvwxyz0123456789", "@.-_"]
 TAG_LIKE = [":contains", ":is", ":matches", ":notis", ":over", ":copy", ":regex", ":value", ":zone", "gt", "date"]
@@ -417,6 +418,28 @@ class DefGen:
         acts = [self.action("%s.a%d" % (label, i)) for i in range(na)]
         mt = ["anyof", "allof"][f.int(label + ".matchtype", 2)]
         return conds, acts, mt
+
+
+# definitions the factory refuses with an exception of its own (BadArgument / BadValue / UnknownCommand) - some only
+# after it has already noted an extension.  As steps of a history they must leave the filters alone.
+BAD_DEFS = [
+    ([("Subject", ":contains", "x")], [("fileinto", ":Archive")], "anyof"),
+    ([("Subject", ":bogus", "x")], [("keep",)], "anyof"),
+    ([("Subject", ":is", "x")], [("nosuchaction", "x")], "anyof"),
+    ([("Subject", ":is", "x")], [("vacation", ":days", "7", "r")], "anyof"),
+    ([("Subject", ":is", "x")], [("fileinto", ":copy", ":bogus", "F")], "anyof"),
+    ([("envelope", ":bogus", ["From"], ["x"])], [("fileinto", "F")], "anyof"),
+    ([("body", ":nope", ":is", "x")], [("fileinto", "F")], "anyof"),
+    ([("Subject", ":is", "x")], [("fileinto", "F")], "noneof"),
+    ([("currentdate", ":zone", "+0100", ":value", "zz", "date", "x")], [("redirect", "a@b.c")], "anyof"),
+    ([("Subject", ":is", "x")], [("redirect", 5)], "anyof"),
+    ([("Subject", ":is", "x")], [("vacation", ":subject", 7, "r")], "anyof"),
+    ([("Subject", ":is", "x")], [("reject", "no"), ("fileinto", ":flags", "\\Seen", ":bogus", "F")], "allof"),
+]
+
+
+def bad_definition(f, label):
+    return BAD_DEFS[f.int(label, len(BAD_DEFS))]
 
 
 def gen_definition(f, label, profile):
